@@ -565,8 +565,9 @@ func (c *Ctx) stageHistories(refs map[refKey]*Ref, keys []refKey) {
 					sharedCSS[g] = p
 				}
 			}
-			// sometimes share the font configuration between documents without @font-face
-			if cfg.Engine == "pango" && sc.Family != "res" && rng.Intn(3) == 0 {
+			// sometimes (always inside the "rew" group) share the font configuration between
+			// documents without @font-face
+			if cfg.Engine == "pango" && sc.Family != "res" && sc.Family != "collide" && sc.Name != "feat-05" && (rng.Intn(3) == 0 || sc.Expect.Group == "rew") {
 				if sharedFC == "" {
 					sharedFC = p + "f"
 				} else {
@@ -598,6 +599,14 @@ func (c *Ctx) stageHistories(refs map[refKey]*Ref, keys []refKey) {
 					}
 				}
 				rop.ID = p + "d2"
+				if rng.Intn(3) == 0 && !rop.Hints {
+					// the same parsed *tree.HTML first rendered WITH presentational hints (result
+					// discarded), then without: nothing of the first render may stick to it
+					hop := rop
+					hop.ID = p + "dh"
+					hop.Hints = true
+					ops = append(ops, hop)
+				}
 				if rng.Intn(2) == 0 {
 					// the same parsed *tree.HTML rendered again with a FRESH font
 					// configuration (everything a render registers must be re-registered)
@@ -1019,9 +1028,17 @@ func (c *Ctx) stageRace(refs map[refKey]*Ref, keys []refKey) {
 		nt := 4 + rng.Intn(5)
 		shared := rng.Intn(2) == 0
 		sharedGroup := ""
+		sameDoc := !shared && i%3 == 1 // the same document rendered by all goroutines of the round
+		var firstK refKey
 		for t := 0; t < nt; t++ {
 			k := small[rng.Intn(len(small))]
-			if len(lockers) > 0 && t < 3 && i%3 != 2 && !shared {
+			if sameDoc {
+				if t == 0 {
+					firstK = k
+				}
+				k = firstK
+			}
+			if len(lockers) > 0 && t < 3 && i%3 == 0 && !shared {
 				k = lockers[rng.Intn(len(lockers))]
 			}
 			ops := docOps(refs[k].Sc, refs[k].Cfg, "", false)
